@@ -5,8 +5,9 @@
 use crate::tree::*;
 use crate::util::*;
 use autosar_data::*;
-use autosar_data_specification::{ContentMode, ElementType};
+use autosar_data_specification::{CharacterDataSpec, ContentMode, ElementType};
 use std::collections::{BTreeMap, BTreeSet, HashMap, HashSet, VecDeque};
+use std::sync::mpsc;
 
 // ------------------------------------------------------------------------------------------------ spec probe
 /// BFS over all element types reachable from the root (any version): chain of element names leading to each type
@@ -92,9 +93,934 @@ fn probe_main() {
     let _ = ContentMode::Sequence;
 }
 
+
+// ------------------------------------------------------------------------------------------------ generator shapes
+fn ok_h(r: &str) -> Option<usize> {
+    r.strip_prefix("R OK h").and_then(|x| x.parse::<usize>().ok())
+}
+fn ok_m(r: &str) -> Option<usize> {
+    r.strip_prefix("R OK m").and_then(|x| x.parse::<usize>().ok())
+}
+
+fn subtree_handles(g: &Gen, root: usize) -> Vec<usize> {
+    let e = g.ex.handles[root].clone();
+    e.elements_dfs().filter_map(|(_, x)| g.ex.hidx.get(&x).copied()).collect()
+}
+
+fn pick_enum(g: &mut Gen, items: &[(EnumItem, u32)], srcver: u32, target: u32) -> Option<Val> {
+    let valid: Vec<&(EnumItem, u32)> = items.iter().filter(|(_, m)| m & srcver != 0).collect();
+    if valid.is_empty() {
+        return None;
+    }
+    let partial: Vec<&&(EnumItem, u32)> = valid.iter().filter(|(_, m)| m & target == 0).collect();
+    let it = if !partial.is_empty() && g.rng.below(10) < 7 { **partial[g.rng.below(partial.len() as u64) as usize] } else { *valid[g.rng.below(valid.len() as u64) as usize] };
+    Some(Val::E(it.0 as u16))
+}
+
+/// grow the subtree below `root` with sub-elements, attributes and enum values; parts that are valid in the
+/// element's own version but NOT in `target` (a version bit) are preferred
+pub fn enrich(g: &mut Gen, root: usize, target: u32, steps: usize) {
+    for _ in 0..steps {
+        let hs = subtree_handles(g, root);
+        if hs.is_empty() {
+            return;
+        }
+        // bias towards recently created elements
+        let hk = if g.rng.below(3) == 0 { hs[g.rng.below(hs.len() as u64) as usize] } else { hs[hs.len() - 1 - g.rng.below((hs.len() as u64).min(4)) as usize] };
+        let e = g.ex.handles[hk].clone();
+        let Ok(ver) = e.min_version() else { return };
+        let srcver = ver as u32;
+        let et = e.element_type();
+        match g.rng.below(10) {
+            0..=5 => {
+                let specs: Vec<(ElementName, u32, u32)> = et.sub_element_spec_iter().filter(|(_, _, m, _)| m & srcver != 0).map(|(n, _, m, nm)| (n, m, nm)).collect();
+                if specs.is_empty() {
+                    continue;
+                }
+                let partial: Vec<&(ElementName, u32, u32)> = specs.iter().filter(|(_, m, _)| m & target == 0).collect();
+                let (name, _, named_mask) = if !partial.is_empty() && g.rng.below(10) < 6 { *partial[g.rng.below(partial.len() as u64) as usize] } else { specs[g.rng.below(specs.len() as u64) as usize] };
+                if named_mask & srcver != 0 {
+                    let item = g.item_name();
+                    g.push(Op::CreateNamed(hk, name as u16, item));
+                } else {
+                    g.push(Op::CreateSub(hk, name as u16));
+                }
+            }
+            6 | 7 => {
+                let specs: Vec<(AttributeName, &CharacterDataSpec, u32)> =
+                    et.attribute_spec_iter().filter_map(|(n, sp, _)| et.find_attribute_spec(n).map(|a| (n, sp, a.version))).collect();
+                if specs.is_empty() {
+                    continue;
+                }
+                let partial: Vec<&(AttributeName, &CharacterDataSpec, u32)> = specs.iter().filter(|(_, _, m)| m & target == 0 && m & srcver != 0).collect();
+                let (an, spec, _) = if !partial.is_empty() && g.rng.below(10) < 6 { *partial[g.rng.below(partial.len() as u64) as usize] } else { specs[g.rng.below(specs.len() as u64) as usize] };
+                let v = match spec {
+                    CharacterDataSpec::Enum { items } => pick_enum(g, items, srcver, target).unwrap_or(Val::U(0)),
+                    other => g.value_for(Some(other)),
+                };
+                g.push(Op::SetAttr(hk, an as u16, v));
+            }
+            8 => {
+                if matches!(e.content_type(), ContentType::CharacterData | ContentType::Mixed) && !e.is_reference() && e.element_name() != ElementName::ShortName {
+                    let v = match et.chardata_spec() {
+                        Some(CharacterDataSpec::Enum { items }) => pick_enum(g, items, srcver, target).unwrap_or(Val::U(0)),
+                        other => g.value_for(other),
+                    };
+                    g.push(Op::SetCData(hk, v));
+                }
+            }
+            _ => {
+                let c = match g.rng.below(3) { 0 => Some(b"c1".to_vec()), 1 => Some(b"a--b".to_vec()), _ => Some(b" note <x> ".to_vec()) };
+                g.push(Op::SetComment(hk, c));
+            }
+        }
+    }
+}
+
+/// handle of the ELEMENTS container of some package of model `m` (created when missing)
+fn elements_of(g: &mut Gen, m: usize, pkg: &str) -> Option<usize> {
+    let n = g.ex.names;
+    let root = g.ex.models[m].root_element();
+    let rk = *g.ex.hidx.get(&root)?;
+    let pk = ok_h(&g.push(Op::GetOrCreate(rk, n.elidx("AR-PACKAGES"))))?;
+    let p = ok_h(&g.push(Op::GetOrCreateNamed(pk, n.elidx("AR-PACKAGE"), pkg.as_bytes().to_vec())))?;
+    ok_h(&g.push(Op::GetOrCreate(p, n.elidx("ELEMENTS"))))
+}
+
+fn second_model(g: &mut Gen, version: u32) -> Option<usize> {
+    let m = ok_m(&g.push(Op::NewModel))?;
+    g.push(Op::CreateFile(m, b"g0.arxml".to_vec(), version));
+    Some(m)
+}
+
+pub fn scenario(g: &mut Gen, k: u64) {
+    let n = g.ex.names;
+    if g.ex.models.is_empty() {
+        g.push(Op::NewModel);
+        g.push(Op::CreateFile(0, b"f0.arxml".to_vec(), VERSIONS[0]));
+    }
+    if g.ex.files.is_empty() {
+        return;
+    }
+    let shape = (k / 2) % 8;
+    match shape {
+        0 | 1 => {
+            // cross-version copy: new -> old (shape 0) and old -> new (shape 1) of an enriched element
+            let old = *g.rng.pick(&[0x1u32, 0x8, 0x80, 0x800, 0x8000, 0x40000]);
+            let Some(m2) = second_model(g, old) else { return };
+            let (src_m, dst_m, target) = if shape == 0 { (0, m2, old) } else { (m2, 0, g.ex.files[0].version() as u32) };
+            let Some(se) = elements_of(g, src_m, "s1") else { return };
+            let Some(de) = elements_of(g, dst_m, "d1") else { return };
+            for _ in 0..(1 + g.rng.below(3)) {
+                let kind = *g.rng.pick(ELEMENT_KINDS);
+                let item = g.item_name();
+                let Some(x) = ok_h(&g.push(Op::CreateNamed(se, n.elidx(kind), item))) else { continue };
+                let steps = 6 + g.rng.below(18) as usize;
+                enrich(g, x, target, steps);
+                if g.rng.below(4) == 0 {
+                    let p = g.rng.below(3) as usize;
+                    g.push(Op::CopyAt(de, x, p));
+                } else {
+                    g.push(Op::Copy(de, x));
+                }
+            }
+            // the whole package, and a duplicate of both sides
+            if g.rng.below(2) == 0 {
+                let sp = g.ex.handles[se].parent().ok().flatten().and_then(|p| g.ex.hidx.get(&p).copied());
+                let dp = g.ex.handles[de].parent().ok().flatten().and_then(|p| p.parent().ok().flatten()).and_then(|p| g.ex.hidx.get(&p).copied());
+                if let (Some(sp), Some(dp)) = (sp, dp) {
+                    g.push(Op::Copy(dp, sp));
+                }
+            }
+            if g.rng.below(2) == 0 {
+                g.push(Op::Duplicate(src_m));
+            }
+        }
+        2 => {
+            // name clashes: copies into the own parent, with some of the suffixed names taken beforehand
+            let Some(el) = elements_of(g, 0, "p1") else { return };
+            let kind = *g.rng.pick(ELEMENT_KINDS);
+            let base = *g.rng.pick(&["Sig", "a", "x_1", "a1"]);
+            let Some(x) = ok_h(&g.push(Op::CreateNamed(el, n.elidx(kind), base.as_bytes().to_vec()))) else { return };
+            enrich(g, x, 0xffff_ffff, 4);
+            for j in [2u32, 4] {
+                if g.rng.below(2) == 0 {
+                    g.push(Op::CreateNamed(el, n.elidx(kind), format!("{}_{}", base, j).into_bytes()));
+                }
+            }
+            for _ in 0..(2 + g.rng.below(4)) {
+                let r = g.push(Op::Copy(el, x));
+                if g.rng.below(3) == 0 {
+                    // a copy of the copy
+                    if let Some(c) = ok_h(&r) {
+                        g.push(Op::Copy(el, c));
+                    }
+                }
+            }
+        }
+        3 => {
+            // references: a package that contains a reference and its target is copied next to itself and into another model
+            let Some(el) = elements_of(g, 0, "r1") else { return };
+            let sig = ok_h(&g.push(Op::CreateNamed(el, n.elidx("SYSTEM-SIGNAL"), b"Sig".to_vec())));
+            let isig = ok_h(&g.push(Op::CreateNamed(el, n.elidx("I-SIGNAL"), b"is".to_vec())));
+            if let (Some(sig), Some(isig)) = (sig, isig) {
+                if let Some(rf) = ok_h(&g.push(Op::CreateSub(isig, n.elidx("SYSTEM-SIGNAL-REF")))) {
+                    g.push(Op::SetRefTarget(rf, sig));
+                }
+                // an external (dangling or foreign) reference
+                if let Some(rf) = ok_h(&g.push(Op::CreateSub(isig, n.elidx("NETWORK-REPRESENTATION-PROPS")))) {
+                    let _ = rf;
+                }
+            }
+            if let Some(sys) = ok_h(&g.push(Op::CreateNamed(el, n.elidx("SYSTEM"), b"sys".to_vec()))) {
+                if let Some(fe) = ok_h(&g.push(Op::CreateSub(sys, n.elidx("FIBEX-ELEMENTS")))) {
+                    for t in ["/r1/Sig", "/other/x", "/r1"] {
+                        if let Some(c) = ok_h(&g.push(Op::CreateSub(fe, n.elidx("FIBEX-ELEMENT-REF-CONDITIONAL")))) {
+                            if let Some(rf) = ok_h(&g.push(Op::CreateSub(c, n.elidx("FIBEX-ELEMENT-REF")))) {
+                                g.paths.insert(t.to_string());
+                                g.push(Op::SetCData(rf, Val::S(t.as_bytes().to_vec())));
+                            }
+                        }
+                    }
+                }
+            }
+            let pkg = g.ex.handles[el].parent().ok().flatten().and_then(|p| g.ex.hidx.get(&p).copied());
+            let pkgs = pkg.and_then(|p| g.ex.handles[p].parent().ok().flatten()).and_then(|p| g.ex.hidx.get(&p).copied());
+            if let (Some(pkg), Some(pkgs)) = (pkg, pkgs) {
+                g.push(Op::Copy(pkgs, pkg));
+                g.push(Op::Copy(pkgs, pkg));
+                if let Some(m2) = second_model(g, VERSIONS[0]) {
+                    let root2 = g.ex.models[m2].root_element();
+                    if let Some(rk) = g.ex.hidx.get(&root2).copied() {
+                        if let Some(pk2) = ok_h(&g.push(Op::CreateSub(rk, n.elidx("AR-PACKAGES")))) {
+                            g.push(Op::Copy(pk2, pkg));
+                            g.push(Op::Copy(pk2, pkg));
+                        }
+                    }
+                }
+            }
+        }
+        4 => {
+            // forbidden shapes: ancestor into descendant, element into itself, copy into a text element
+            let hs: Vec<usize> = (0..g.ex.handles.len()).collect();
+            for _ in 0..4 {
+                let d = hs[g.rng.below(hs.len() as u64) as usize];
+                let e = g.ex.handles[d].clone();
+                let mut anc = vec![];
+                let mut cur = e.parent().ok().flatten();
+                while let Some(p) = cur {
+                    if let Some(k) = g.ex.hidx.get(&p) {
+                        anc.push(*k);
+                    }
+                    cur = p.parent().ok().flatten();
+                }
+                if !anc.is_empty() {
+                    let a = anc[g.rng.below(anc.len() as u64) as usize];
+                    g.push(Op::Copy(d, a));
+                }
+                g.push(Op::Copy(d, d));
+                if g.rng.below(2) == 0 {
+                    g.push(Op::CopyAt(d, d, 0));
+                }
+            }
+            if let Some(t) = g.pick_where(|e| e.content_type() == ContentType::CharacterData) {
+                if let Some(o) = g.pickh() {
+                    g.push(Op::Copy(t, o));
+                }
+            }
+        }
+        5 => {
+            // comments and mixed content
+            let Some(el) = elements_of(g, 0, "m1") else { return };
+            let Some(x) = ok_h(&g.push(Op::CreateNamed(el, n.elidx("SYSTEM"), b"doc".to_vec()))) else { return };
+            g.push(Op::SetComment(x, Some(b"top--comment".to_vec())));
+            if let Some(d) = ok_h(&g.push(Op::CreateSub(x, n.elidx("DESC")))) {
+                if let Some(l2) = ok_h(&g.push(Op::CreateSub(d, n.elidx("L-2")))) {
+                    g.push(Op::InsertCItem(l2, b"text one ".to_vec(), 0));
+                    let r = g.push(Op::CreateSub(l2, n.elidx("TT")));
+                    if let Some(tt) = ok_h(&r) {
+                        g.push(Op::SetCData(tt, Val::S(b"tt".to_vec())));
+                        g.push(Op::SetComment(tt, Some(b"inner".to_vec())));
+                    }
+                    g.push(Op::InsertCItem(l2, b" & two".to_vec(), 2));
+                    g.push(Op::CreateSub(l2, n.elidx("BR")));
+                    g.push(Op::SetComment(l2, Some(b"on mixed".to_vec())));
+                }
+            }
+            enrich(g, x, 0xffff_ffff, 6);
+            g.push(Op::Copy(el, x));
+            let v2 = *g.rng.pick(&[VERSIONS[0], 0x1, 0x800]);
+            if let Some(m2) = second_model(g, v2) {
+                if let Some(e2) = elements_of(g, m2, "m1") {
+                    g.push(Op::Copy(e2, x));
+                }
+            }
+        }
+        6 => {
+            // an element name whose type depends on the parent: FRAGMENTATION-PROPS below IPV-4-PROPS / IPV-6-PROPS
+            let Some(el) = elements_of(g, 0, "t1") else { return };
+            let Some(ip) = ok_h(&g.push(Op::CreateNamed(el, n.elidx("ETH-IP-PROPS"), b"ip".to_vec()))) else { return };
+            let v4 = ok_h(&g.push(Op::CreateSub(ip, n.elidx("IPV-4-PROPS"))));
+            let v6 = ok_h(&g.push(Op::CreateSub(ip, n.elidx("IPV-6-PROPS"))));
+            let (Some(v4), Some(v6)) = (v4, v6) else { return };
+            let (a, b) = if g.rng.below(2) == 0 { (v4, v6) } else { (v6, v4) };
+            let Some(fp) = ok_h(&g.push(Op::CreateSub(a, n.elidx("FRAGMENTATION-PROPS")))) else { return };
+            enrich(g, fp, 0xffff_ffff, 5);
+            if let Some(c) = ok_h(&g.push(Op::Copy(b, fp))) {
+                enrich(g, c, 0xffff_ffff, 4);
+            }
+            g.push(Op::SerializeFile(0));
+        }
+        _ => {
+            // several files (also of different versions), membership of packages, then duplicate
+            let v2 = if g.rng.below(2) == 0 { VERSIONS[0] } else { *g.rng.pick(&[0x80000u32, 0x40000, 0x800]) };
+            g.push(Op::CreateFile(0, b"f1.arxml".to_vec(), v2));
+            let Some(el) = elements_of(g, 0, "mf") else { return };
+            let kind = *g.rng.pick(ELEMENT_KINDS);
+            if let Some(x) = ok_h(&g.push(Op::CreateNamed(el, n.elidx(kind), b"x".to_vec()))) {
+                enrich(g, x, v2, 8);
+            }
+            let nfiles = g.ex.files.len();
+            for _ in 0..3 {
+                let hk = g.pick_where(|e| matches!(e.element_name(), ElementName::ArPackage) || e.parent().ok().flatten().map(|p| p.element_name() == ElementName::Elements).unwrap_or(false));
+                if let Some(hk) = hk {
+                    let f = g.rng.below(nfiles as u64) as usize;
+                    if g.rng.below(3) == 0 { g.push(Op::RemoveFromFile(hk, f)); } else { g.push(Op::AddToFile(hk, f)); }
+                }
+            }
+            g.push(Op::Duplicate(0));
+        }
+    }
+}
+
+// ------------------------------------------------------------------------------------------------ the direct oracle
+/// observation lines grouped per model index (usize::MAX: handles that belong to no model)
+fn views(ex: &Exec) -> BTreeMap<usize, Vec<String>> {
+    let mut lines: Vec<String> = vec![];
+    ex.observe(&mut |s: &str| lines.push(s.to_string()));
+    let mut res: BTreeMap<usize, Vec<String>> = BTreeMap::new();
+    let mut cur = usize::MAX;
+    let mut file_model: HashMap<String, usize> = HashMap::new();
+    for l in &lines {
+        let w: Vec<&str> = l.split_whitespace().collect();
+        match w[0] {
+            "M" => {
+                cur = w[1].parse().unwrap();
+                res.entry(cur).or_default().push(l.clone());
+            }
+            "N" | "I" | "P" | "B" => res.entry(cur).or_default().push(l.clone()),
+            "H" => {
+                let m = w.iter().find_map(|x| x.strip_prefix("model=ok:")).and_then(|x| x.parse::<usize>().ok()).unwrap_or(usize::MAX);
+                res.entry(m).or_default().push(l.clone());
+            }
+            "F" => {
+                let m = w.iter().find_map(|x| x.strip_prefix("model=")).and_then(|x| x.parse::<usize>().ok()).unwrap_or(usize::MAX);
+                file_model.insert(w[1].to_string(), m);
+                res.entry(m).or_default().push(l.clone());
+            }
+            "X" => {
+                let m = file_model.get(w[1]).copied().unwrap_or(usize::MAX);
+                res.entry(m).or_default().push(l.clone());
+            }
+            _ => {}
+        }
+    }
+    res
+}
+
+fn model_of_handle(ex: &Exec, h: usize) -> Option<usize> {
+    ex.handles.get(h).and_then(|e| e.model().ok()).and_then(|m| ex.models.iter().position(|x| *x == m))
+}
+fn model_of_file(ex: &Exec, f: usize) -> Option<usize> {
+    ex.files.get(f).and_then(|f| f.model().ok()).and_then(|m| ex.models.iter().position(|x| *x == m))
+}
+
+/// the models an operation is allowed to change
+fn touched(ex: &Exec, op: &Op) -> BTreeSet<usize> {
+    use Op::*;
+    let mut t = BTreeSet::new();
+    let mut h = |k: &usize| {
+        if let Some(m) = model_of_handle(ex, *k) {
+            t.insert(m);
+        }
+    };
+    match op {
+        CreateSub(a, _) | CreateSubAt(a, _, _) | CreateNamed(a, _, _) | CreateNamedAt(a, _, _, _) | RemoveKind(a, _) | SetItemName(a, _)
+        | SetCData(a, _) | RemoveCData(a) | InsertCItem(a, _, _) | RemoveCItem(a, _) | SetAttr(a, _, _) | RemoveAttr(a, _) | SetComment(a, _)
+        | GetOrCreate(a, _) | GetOrCreateNamed(a, _, _) | Sort(a) | SerializeElem(a) => h(a),
+        Copy(a, _) | CopyAt(a, _, _) | SetRefTarget(a, _) => h(a),
+        Move(a, b) | MoveAt(a, b, _) | Remove(a, b) => {
+            h(a);
+            h(b)
+        }
+        AddToFile(a, _) | RemoveFromFile(a, _) => h(a),
+        NewModel | Duplicate(_) => {}
+        CreateFile(m, _, _) | SortModel(m) | Load(m, _, _, _) => {
+            t.insert(*m);
+        }
+        RemoveFile(m, f) => {
+            t.insert(*m);
+            if let Some(x) = model_of_file(ex, *f) {
+                t.insert(x);
+            }
+        }
+        SetVersion(f, _) | CheckCompat(f, _) | SerializeFile(f) => {
+            if let Some(x) = model_of_file(ex, *f) {
+                t.insert(x);
+            }
+        }
+        #[allow(unreachable_patterns)]
+        _ => {
+            // operations added by other families: no independence claim
+            for k in 0..ex.models.len() {
+                t.insert(k);
+            }
+        }
+    }
+    t
+}
+
+#[derive(Clone, PartialEq, Debug)]
+enum XItem {
+    E(Box<XNode>),
+    D(String),
+}
+#[derive(Clone, PartialEq, Debug)]
+struct XNode {
+    name: ElementName,
+    attrs: Vec<(AttributeName, String)>,
+    comment: Option<String>,
+    content: Vec<XItem>,
+}
+
+fn value_ok(cd: &CharacterData, spec: &CharacterDataSpec, ver: u32) -> bool {
+    // independent of CharacterData::check_version_compatibility: only enum items carry a version mask
+    match (spec, cd) {
+        (CharacterDataSpec::Enum { items }, CharacterData::Enum(e)) => items.iter().any(|(it, m)| it == e && m & ver != 0),
+        (CharacterDataSpec::Enum { .. }, _) => false,
+        _ => true,
+    }
+}
+
+/// the subtree of `src` as it is (no filtering)
+fn actual(e: &Element) -> XNode {
+    XNode {
+        name: e.element_name(),
+        attrs: e.attributes().map(|a| (a.attrname, show_cdata(&a.content))).collect(),
+        comment: e.comment(),
+        content: e
+            .content()
+            .map(|c| match c {
+                ElementContent::Element(s) => XItem::E(Box::new(actual(&s))),
+                ElementContent::CharacterData(d) => XItem::D(show_cdata(&d)),
+            })
+            .collect(),
+    }
+}
+
+/// the subtree of `src` filtered for version `ver`, computed from the specification tables only.
+/// `ty` is the type the element has AT ITS PLACE (by_dest: the type found under the destination parent in `ver`;
+/// otherwise the type the source element carries).  None: the element itself is not permitted.
+fn expected(src: &Element, ty: ElementType, ver: u32, by_dest: bool) -> Option<XNode> {
+    let mut attrs = vec![];
+    for a in src.attributes() {
+        match ty.find_attribute_spec(a.attrname) {
+            None => return None,
+            Some(sp) => {
+                if sp.version & ver != 0 && value_ok(&a.content, sp.spec, ver) {
+                    attrs.push((a.attrname, show_cdata(&a.content)));
+                } else if sp.required {
+                    return None;
+                }
+            }
+        }
+    }
+    let mut content = vec![];
+    for c in src.content() {
+        match c {
+            ElementContent::CharacterData(d) => content.push(XItem::D(show_cdata(&d))),
+            ElementContent::Element(s) => {
+                if let Some((cty, _)) = ty.find_sub_element(s.element_name(), ver) {
+                    let t = if by_dest { cty } else { s.element_type() };
+                    if let Some(x) = expected(&s, t, ver, by_dest) {
+                        content.push(XItem::E(Box::new(x)));
+                    }
+                }
+            }
+        }
+    }
+    Some(XNode { name: src.element_name(), attrs, comment: src.comment(), content })
+}
+
+fn chain_text(e: &Element) -> Option<(String, String)> {
+    // opening and closing tags of the ancestors of e (AUTOSAR excluded), with SHORT-NAMEs
+    let mut anc = vec![];
+    let mut cur = e.parent().ok()?;
+    while let Some(p) = cur {
+        anc.push(p.clone());
+        cur = p.parent().ok()?;
+    }
+    anc.pop()?; // the root element
+    anc.reverse();
+    let mut open = String::new();
+    let mut close = String::new();
+    for a in &anc {
+        open.push_str(&format!("<{}>", a.element_name().to_str()));
+        if a.is_identifiable() {
+            open.push_str(&format!("<SHORT-NAME>{}</SHORT-NAME>", a.item_name().unwrap_or_default()));
+        }
+        close = format!("</{}>{}", a.element_name().to_str(), close);
+    }
+    Some((open, close))
+}
+
+fn wrap_doc(chain: &(String, String), body: &str, ver: AutosarVersion) -> String {
+    format!(
+        "<?xml version=\"1.0\" encoding=\"utf-8\"?>\n<AUTOSAR xsi:schemaLocation=\"http://autosar.org/schema/r4.0 {}\" xmlns=\"http://autosar.org/schema/r4.0\" xmlns:xsi=\"http://www.w3.org/2001/XMLSchema-instance\">{}{}{}</AUTOSAR>\n",
+        ver.filename(),
+        chain.0,
+        body,
+        chain.1
+    )
+}
+
+/// number of problems a lenient load of the text reports (a fatal error counts as one), with the first one
+fn load_problems(text: &str) -> (usize, String) {
+    let m = AutosarModel::new();
+    match guard(|| m.load_buffer(text.as_bytes(), "w.arxml", false)) {
+        Ok(Ok((_, ws))) => (ws.len(), ws.first().map(show_load_error).unwrap_or_default()),
+        Ok(Err(e)) => (1, format!("fatal:{}", show_load_error(&e))),
+        Err(_) => (1, "panic".to_string()),
+    }
+}
+
+fn is_suffix_of(orig: &str, name: &str) -> Option<u64> {
+    if name == orig {
+        return Some(0);
+    }
+    let rest = name.strip_prefix(orig)?.strip_prefix('_')?;
+    if rest.is_empty() || (rest.len() > 1 && rest.starts_with('0')) || !rest.bytes().all(|b| b.is_ascii_digit()) {
+        return None;
+    }
+    let k: u64 = rest.parse().ok()?;
+    if k == 0 { None } else { Some(k) }
+}
+
+struct Findings {
+    out: Vec<String>,
+    stats: BTreeMap<&'static str, u64>,
+}
+impl Findings {
+    fn fail(&mut self, script: usize, opi: usize, kind: &str, detail: String) {
+        self.out.push(format!("ORACLE-FAIL script={} op={} kind={} {}", script, opi, kind, detail));
+    }
+    fn count(&mut self, k: &'static str) {
+        *self.stats.entry(k).or_insert(0) += 1;
+    }
+}
+
+fn is_ancestor_or_self(a: &Element, x: &Element) -> bool {
+    let mut cur = Some(x.clone());
+    while let Some(c) = cur {
+        if c == *a {
+            return true;
+        }
+        cur = c.parent().ok().flatten();
+    }
+    false
+}
+
+
+/// does the subtree contain an element whose text is an enum value that is not valid in version `ver`?
+fn has_foreign_enum_text(e: &Element, ver: u32) -> bool {
+    e.elements_dfs().any(|(_, x)| match (x.character_data(), x.element_type().chardata_spec()) {
+        (Some(CharacterData::Enum(it)), Some(CharacterDataSpec::Enum { items })) => !items.iter().any(|(i, m)| *i == it && m & ver != 0),
+        _ => false,
+    })
+}
+
+/// decidable classes that explain why a duplicate's text differs (known defect classes; empty = unexplained)
+fn dup_classes(orig: &AutosarModel) -> Vec<&'static str> {
+    let mut c = vec![];
+    let root = orig.root_element();
+    if let Ok(v) = root.min_version() {
+        let vv = v as u32;
+        let filtered = root.sub_elements().any(|ch| expected(&ch, ch.element_type(), vv, false) != Some(actual(&ch)) || root.element_type().find_sub_element(ch.element_name(), vv).is_none());
+        if filtered {
+            c.push("version-filter");
+        }
+    }
+    let foreign = orig.elements_dfs().any(|(_, e)| {
+        e.file_membership().map(|(local, set)| local && set.iter().any(|w| w.upgrade().map(|f| f.model().ok().as_ref() != Some(orig)).unwrap_or(true))).unwrap_or(false)
+    });
+    if foreign {
+        c.push("foreign-membership");
+    }
+    c
+}
+
+fn oracle_script(names: &Names, script: usize, probes: Vec<String>, ops: &[Op], fd: &mut Findings) {
+    let mut ex = Exec::new(names);
+    ex.serialize_obs = true;
+    ex.probes = probes.into_iter().filter(|p| !p.starts_with('\u{1}')).collect();
+    for (opi, op) in ops.iter().enumerate() {
+        let before = match guard(|| views(&ex)) {
+            Ok(v) => v,
+            Err(_) => return,
+        };
+        let tch = touched(&ex, op);
+        let nmodels = ex.models.len();
+        // ---- pre-state of a copy
+        struct PreCopy {
+            src: Element,
+            dst: Element,
+            src_ser: String,
+            src_tree: XNode,
+            existing: HashSet<Element>,
+            same_model: bool,
+            same_version: Option<AutosarVersion>,
+            dst_ver: Option<AutosarVersion>,
+            src_ver: Option<AutosarVersion>,
+            dst_paths: BTreeSet<String>,
+            src_is_anc: bool,
+            exp_dest: Option<XNode>,
+            exp_src: Option<XNode>,
+            src_doc_problems: Option<(usize, String)>,
+            dst_ctx_problems: Option<(usize, String)>,
+            parent_path: Option<String>,
+        }
+        let pre_copy: Option<PreCopy> = match op {
+            Op::Copy(d, s) | Op::CopyAt(d, s, _) => {
+                let dst = ex.handles[*d].clone();
+                let src = ex.handles[*s].clone();
+                guard(|| {
+                    let dm = dst.model().ok();
+                    let sm = src.model().ok();
+                    let dst_ver = dst.min_version().ok();
+                    let src_ver = src.min_version().ok();
+                    let mut vers: BTreeSet<u32> = BTreeSet::new();
+                    for m in [&dm, &sm].into_iter().flatten() {
+                        for f in m.files() {
+                            vers.insert(f.version() as u32);
+                        }
+                    }
+                    let same_version = if vers.len() == 1 && dst_ver.is_some() && dst_ver == src_ver { dst_ver } else { None };
+                    let dst_paths: BTreeSet<String> = dm.as_ref().map(|m| m.identifiable_elements().map(|(p, _)| p).collect()).unwrap_or_default();
+                    let (exp_dest, exp_src) = match dst_ver {
+                        Some(v) => {
+                            let vv = v as u32;
+                            let dty = dst.element_type().find_sub_element(src.element_name(), vv).map(|x| x.0);
+                            (dty.and_then(|t| expected(&src, t, vv, true)), expected(&src, src.element_type(), vv, false))
+                        }
+                        None => (None, None),
+                    };
+                    let src_ser = src.serialize();
+                    let small = src.elements_dfs().count() <= 60;
+                    let src_doc_problems = match (small, src_ver, chain_text(&src)) {
+                        (true, Some(v), Some(ch)) => Some(load_problems(&wrap_doc(&ch, &src_ser, v))),
+                        _ => None,
+                    };
+                    // the destination context alone (the copy is inserted below dst)
+                    let dst_ctx_problems = match (small, dst_ver, chain_text(&dst)) {
+                        (true, Some(v), Some(ch)) => {
+                            let own_open = format!("<{}>{}", dst.element_name().to_str(), if dst.is_identifiable() { format!("<SHORT-NAME>{}</SHORT-NAME>", dst.item_name().unwrap_or_default()) } else { String::new() });
+                            let own_close = format!("</{}>", dst.element_name().to_str());
+                            Some(load_problems(&wrap_doc(&(format!("{}{}", ch.0, own_open), format!("{}{}", own_close, ch.1)), "", v)))
+                        }
+                        _ => None,
+                    };
+                    PreCopy {
+                        src_ser,
+                        src_tree: actual(&src),
+                        existing: ex.hidx.keys().cloned().collect(),
+                        same_model: dm.is_some() && dm == sm,
+                        same_version,
+                        dst_ver,
+                        src_ver,
+                        dst_paths,
+                        src_is_anc: is_ancestor_or_self(&src, &dst),
+                        exp_dest,
+                        exp_src,
+                        src_doc_problems,
+                        dst_ctx_problems,
+                        parent_path: dst.path().ok().or_else(|| if dst.parent().ok().flatten().is_none() { Some(String::new()) } else { None }),
+                        src,
+                        dst,
+                    }
+                })
+                .ok()
+            }
+            _ => None,
+        };
+        let pre_dup: Option<(AutosarModel, Vec<(String, u32, Option<bool>, Result<String, String>)>, HashSet<Element>)> = match op {
+            Op::Duplicate(m) => {
+                let md = ex.models[*m].clone();
+                let files = md.files().map(|f| (f.filename().to_string_lossy().to_string(), f.version() as u32, f.xml_standalone(), f.serialize().map_err(|e| err_name(&e)))).collect();
+                Some((md, files, ex.hidx.keys().cloned().collect()))
+            }
+            _ => None,
+        };
+        // ---- the operation
+        let r = ex.apply(op);
+        if r == "R PANIC" || r == "R HANG" || r.starts_with("R BADSCRIPT") {
+            return;
+        }
+        let after = match guard(|| views(&ex)) {
+            Ok(v) => v,
+            Err(_) => return,
+        };
+        // ---- independence: a model the operation has no handle into is unchanged
+        for k in 0..nmodels {
+            if !tch.contains(&k) {
+                fd.count("independence_checks");
+                if before.get(&k) != after.get(&k) {
+                    let (b, a) = (before.get(&k).cloned().unwrap_or_default(), after.get(&k).cloned().unwrap_or_default());
+                    let first = b.iter().zip(a.iter()).find(|(x, y)| x != y).map(|(x, y)| format!("before=[{}] after=[{}]", x, y)).unwrap_or(format!("lines {} -> {}", b.len(), a.len()));
+                    fd.fail(script, opi, "INDEP", format!("model={} op=[{}] {}", k, op.line(), first));
+                }
+            }
+        }
+        // ---- copy
+        if let Some(pc) = pre_copy {
+            let ok = ok_h(&r);
+            if pc.src_is_anc && ok.is_some() {
+                fd.fail(script, opi, "COPY-OF-PARENT", format!("op=[{}] succeeded", op.line()));
+            }
+            fd.count(if ok.is_some() { "copies_ok" } else { "copies_err" });
+            // the source is never changed, whatever the result
+            if pc.src.serialize() != pc.src_ser || actual(&pc.src) != pc.src_tree {
+                fd.fail(script, opi, "SRC-CHANGED", format!("op=[{}] result=[{}]", op.line(), r));
+            }
+            if ok.is_none() && before != after {
+                fd.fail(script, opi, "FAILED-COPY-EFFECT", format!("op=[{}] result=[{}]", op.line(), r));
+            }
+            if let Some(ck) = ok {
+                let copy = ex.handles[ck].clone();
+                let model = copy.model().ok();
+                // (n) all element objects are new
+                for (_, e) in copy.elements_dfs() {
+                    if pc.existing.contains(&e) {
+                        fd.fail(script, opi, "SHARED", format!("op=[{}] element {} of the copy existed before", op.line(), e.element_name()));
+                        break;
+                    }
+                }
+                // (f) findable
+                if let Some(model) = &model {
+                    for (_, e) in copy.elements_dfs() {
+                        if e.is_identifiable() {
+                            fd.count("identifiables_checked");
+                            match e.path() {
+                                Ok(p) => {
+                                    if model.get_element_by_path(&p).as_ref() != Some(&e) {
+                                        let nm = e.item_name();
+                                        fd.fail(script, opi, "NOT-FINDABLE", format!("op=[{}] path={} name={:?}", op.line(), p, nm));
+                                    }
+                                }
+                                Err(er) => fd.fail(script, opi, "NOT-FINDABLE", format!("op=[{}] path() fails: {}", op.line(), err_name(&er))),
+                            }
+                        }
+                        if e.is_reference() {
+                            if let Some(CharacterData::String(t)) = e.character_data() {
+                                fd.count("references_checked");
+                                if !model.get_references_to(&t).iter().any(|w| w.upgrade().as_ref() == Some(&e)) {
+                                    fd.fail(script, opi, "REF-NOT-REGISTERED", format!("op=[{}] text={}", op.line(), t));
+                                }
+                            }
+                        }
+                    }
+                }
+                // own name
+                let mut expect_name: Option<(String, String)> = None;
+                if pc.src.is_identifiable() {
+                    if let (Some(orig), Some(newn)) = (pc.src.item_name(), copy.item_name()) {
+                        match is_suffix_of(&orig, &newn) {
+                            None => fd.fail(script, opi, "NAME", format!("op=[{}] orig={} new={}", op.line(), orig, newn)),
+                            Some(k) => {
+                                if let Some(pp) = &pc.parent_path {
+                                    // needed and minimal: every earlier candidate was taken, the chosen one was free
+                                    for j in 0..k {
+                                        let cand = if j == 0 { orig.clone() } else { format!("{}_{}", orig, j) };
+                                        if !pc.dst_paths.contains(&format!("{}/{}", pp, cand)) {
+                                            fd.fail(script, opi, "NAME-NOT-MINIMAL", format!("op=[{}] orig={} new={} free={}", op.line(), orig, newn, cand));
+                                            break;
+                                        }
+                                    }
+                                    if pc.dst_paths.contains(&format!("{}/{}", pp, newn)) {
+                                        fd.fail(script, opi, "NAME-NOT-UNIQUE", format!("op=[{}] new={}", op.line(), newn));
+                                    }
+                                }
+                                expect_name = Some((orig, newn));
+                            }
+                        }
+                    }
+                }
+                let rename = |mut x: XNode| -> XNode {
+                    if let Some((_, newn)) = &expect_name {
+                        if let Some(XItem::E(sn)) = x.content.first_mut() {
+                            if sn.name == ElementName::ShortName {
+                                sn.content = vec![XItem::D(format!("S{}", hex(newn.as_bytes())))];
+                            }
+                        }
+                    }
+                    x
+                };
+                let act = actual(&copy);
+                // (v) same version: text equality
+                if pc.same_version.is_some() {
+                    fd.count("same_version_copies");
+                    let expect_text = match &expect_name {
+                        Some((o, nw)) => pc.src_ser.replacen(&format!(">{}</SHORT-NAME>", o), &format!(">{}</SHORT-NAME>", nw), 1),
+                        None => pc.src_ser.clone(),
+                    };
+                    let got = copy.serialize();
+                    if got != expect_text {
+                        fd.fail(script, opi, "TEXT", format!("op=[{}] {}", op.line(), crate::xml::oracle::first_diff(&expect_text, &got)));
+                    }
+                } else if pc.dst_ver.is_some() {
+                    fd.count("cross_version_copies");
+                }
+                // (x) exactly the permitted parts (both for same and cross version)
+                let exp_d = pc.exp_dest.clone().map(&rename);
+                let exp_s = pc.exp_src.clone().map(&rename);
+                if exp_d.as_ref() != Some(&act) {
+                    if exp_s.as_ref() == Some(&act) {
+                        fd.fail(script, opi, "FILTER-BY-SOURCE-TYPE", format!("op=[{}] src={} the copy is filtered by the type of the source element, not by its type in the destination", op.line(), pc.src.element_name()));
+                    } else {
+                        fd.fail(script, opi, "FILTER", format!("op=[{}] src={} expected(dest)={} expected(src)={}", op.line(), pc.src.element_name(), exp_d.is_some(), exp_s.is_some()));
+                    }
+                }
+                if act != pc.src_tree.clone() && pc.same_version.is_none() {
+                    fd.count("cross_version_copies_filtered");
+                }
+                // the type of the copy
+                if let Some(v) = pc.dst_ver {
+                    if let Some((dty, _)) = pc.dst.element_type().find_sub_element(copy.element_name(), v as u32) {
+                        if dty != copy.element_type() {
+                            fd.fail(script, opi, "TYPE-KEPT", format!("op=[{}] element {} keeps the type it had under {}", op.line(), copy.element_name(), pc.src.parent().ok().flatten().map(|p| p.element_name().to_string()).unwrap_or_default()));
+                        }
+                    }
+                }
+                // (w) still validates
+                if let (Some((0, _)), Some((0, _)), Some(v)) = (&pc.src_doc_problems, &pc.dst_ctx_problems, pc.dst_ver) {
+                    if let Some(ch) = chain_text(&copy) {
+                        fd.count("validation_checks");
+                        if pc.same_version.is_none() {
+                            fd.count("validation_checks_cross_version");
+                        }
+                        let (np, first) = load_problems(&wrap_doc(&ch, &copy.serialize(), v));
+                        if np != 0 {
+                            let mut cl = vec![];
+                            if pc.exp_dest != pc.exp_src {
+                                cl.push("type-by-parent");
+                            }
+                            if has_foreign_enum_text(&copy, v as u32) {
+                                cl.push("enum-text");
+                            }
+                            fd.fail(script, opi, "VALIDATE", format!("classes={} op=[{}] src={} srcver={:?} dstver={:?} first={}", if cl.is_empty() { "-".to_string() } else { cl.join(",") }, op.line(), pc.src.element_name(), pc.src_ver.map(|x| x as u32), v as u32, first));
+                        }
+                    }
+                }
+                let _ = pc.same_model;
+            }
+        }
+        // ---- duplicate
+        if let Some((orig, files, existing)) = pre_dup {
+            match ok_m(&r) {
+                None => {
+                    fd.count("duplicates_err");
+                    fd.fail(script, opi, "DUP-ERR", format!("op=[{}] result=[{}] files={:?}", op.line(), r, files.iter().map(|f| f.1).collect::<Vec<_>>()));
+                    if before != after {
+                        fd.fail(script, opi, "FAILED-DUP-EFFECT", format!("op=[{}]", op.line()));
+                    }
+                }
+                Some(mk) => {
+                    fd.count("duplicates_ok");
+                    let copy = ex.models[mk].clone();
+                    let cf: Vec<ArxmlFile> = copy.files().collect();
+                    if cf.len() != files.len() {
+                        fd.fail(script, opi, "DUP-FILES", format!("{} files -> {}", files.len(), cf.len()));
+                    }
+                    for (f, (name, ver, sa, text)) in cf.iter().zip(files.iter()) {
+                        fd.count("duplicate_files_compared");
+                        if f.filename().to_string_lossy() != *name || f.version() as u32 != *ver || f.xml_standalone() != *sa {
+                            fd.fail(script, opi, "DUP-FILES", format!("file {} differs in name/version/standalone", name));
+                        }
+                        let t2 = f.serialize().map_err(|e| err_name(&e));
+                        if t2 != *text {
+                            let d = match (text, &t2) {
+                                (Ok(a), Ok(b)) => crate::xml::oracle::first_diff(a, b),
+                                (a, b) => format!("{:?} vs {:?}", a.as_ref().map(|_| "text"), b.as_ref().map(|_| "text")),
+                            };
+                            let cl = dup_classes(&orig);
+                            fd.fail(script, opi, "DUP-TEXT", format!("classes={} op=[{}] file={} versions={:?} {}", if cl.is_empty() { "-".to_string() } else { cl.join(",") }, op.line(), name, files.iter().map(|f| f.1).collect::<Vec<_>>(), d));
+                        }
+                    }
+                    for (_, e) in copy.elements_dfs() {
+                        if existing.contains(&e) {
+                            fd.fail(script, opi, "SHARED", format!("op=[{}] element {} of the duplicate existed before", op.line(), e.element_name()));
+                            break;
+                        }
+                    }
+                    // the original's text is unchanged (also covered by INDEP)
+                    for (f, (_, _, _, text)) in orig.files().zip(files.iter()) {
+                        if f.serialize().map_err(|e| err_name(&e)) != *text {
+                            fd.fail(script, opi, "SRC-CHANGED", format!("op=[{}] original file text changed", op.line()));
+                        }
+                    }
+                }
+            }
+        }
+    }
+}
+
+pub fn oracle_main(args: &[String]) {
+    let dump = args[0].clone();
+    let script = &args[1];
+    let only: Option<usize> = args.get(2).and_then(|x| x.parse().ok());
+    let mut total: BTreeMap<&'static str, u64> = BTreeMap::new();
+    let mut nfail = 0u64;
+    let mut hung = 0u64;
+    for (idx, probes, ops) in read_scripts(script) {
+        if only.map(|o| o != idx).unwrap_or(false) {
+            continue;
+        }
+        let (tx, rx) = mpsc::channel::<(Vec<String>, BTreeMap<&'static str, u64>)>();
+        let dump2 = dump.clone();
+        std::thread::Builder::new()
+            .stack_size(256 * 1024 * 1024)
+            .spawn(move || {
+                let names = Names::load(&dump2);
+                let mut fd = Findings { out: vec![], stats: BTreeMap::new() };
+                let _ = guard(std::panic::AssertUnwindSafe(|| oracle_script(&names, idx, probes, &ops, &mut fd)));
+                let _ = tx.send((fd.out, fd.stats));
+            })
+            .unwrap();
+        match rx.recv_timeout(std::time::Duration::from_millis(20000)) {
+            Ok((out, stats)) => {
+                for l in out {
+                    println!("{}", l);
+                    nfail += 1;
+                }
+                for (k, v) in stats {
+                    *total.entry(k).or_insert(0) += v;
+                }
+                *total.entry("scripts").or_insert(0) += 1;
+            }
+            Err(_) => hung += 1,
+        }
+    }
+    for (k, v) in &total {
+        println!("STAT {}={}", k, v);
+    }
+    println!("STAT oracle_failures={}", nfail);
+    println!("STAT hung_scripts={}", hung);
+    std::process::exit(0);
+}
+
 pub fn main(args: &[String]) {
     match args.get(0).map(|s| s.as_str()) {
         Some("probe") => probe_main(),
+        Some("oracle") => oracle_main(&args[1..]),
         _ => {
             eprintln!("usage: avh copy probe|oracle ...");
             std::process::exit(2)
